@@ -236,6 +236,9 @@ func checkC15(p *Program, r *Reporter) {
 		r.Decide(nScan > 0 && okFlag != nil, "E5-CLEANSCAN", shortFn(fn), "scan-behind-not-found", p.pos(s.Pos()), "every scan store lies behind the 'no file found' edge of the cache read",
 			"no segment scan behind the found-flag of the cache read was recognised", nil)
 	}
+	if wtj := p.mustFunc(r, pkgApp, "(*RepData).writeToJSON"); wtj != nil {
+		truncRule(p, r, wtj)
+	}
 	// (b) publication after validation
 	r.Rule("E5-PUBLISH", "representation and MPD registered only after every load-time check; failed consolidation deletes the asset", 5)
 	ffL := factsOf(load)
